@@ -31,7 +31,7 @@ ASSUMPTIONS = [
     'a waiter may end with a result, an exception or a cancellation; only "still pending at T_v" is a violation',
 ]
 MIN_EVENTS = {
-    'quick': {'cut_runs': 1000, 'cuts_before_completion': 500, 'table_checks': 1000, 'leftover_checks': 1000},
+    'quick': {'cut_runs': 1800, 'cuts_before_completion': 1200, 'table_checks': 1800, 'leftover_checks': 1800},
     'thorough': {'cut_runs': 3000, 'cuts_before_completion': 1200, 'table_checks': 3000, 'leftover_checks': 3000},
 }
 CASE_TIMEOUT = 900
@@ -48,7 +48,7 @@ def plan(tier, seed):
     for p in PROCS:
         for c in CUTS:
             cases.append({'kind': 'cut', 'proc': p, 'cut': c, 'seed': seed * 1000003 + len(cases),
-                          'max_points': 24 if tier == 'quick' else 10 ** 6})
+                          'max_points': 150 if tier == 'quick' else 10 ** 6})
     return cases
 
 
@@ -374,7 +374,7 @@ def run_case(case, r: R):
 
 
 LEVEL_TEXT = ('Fault enumeration: for 17 procedures x 4 cut kinds the link is dropped or the HCI transport lost at every '
-              'HCI-message index of the procedure (thorough; a spread of <= 24 indices per pair in quick), each on a '
+              'HCI-message index of the procedure (thorough; up to 150 indices per pair in quick, which is every index for all but the longest procedures), each on a '
               'fresh rig; afterwards the waiter must have ended within 300 virtual seconds, host/device/controller '
               'connection tables must agree and no per-connection state of the dead connection may remain in GATT '
               'server, SMP, L2CAP or the outbound queues.')
